@@ -316,9 +316,16 @@ where
             }
         };
 
-        sink.close()
+        // Closing the sink can fail as well (for example after the connection broke), this must
+        // not prevent us from announcing the end of the session with a final event.
+        let close_result = sink
+            .close()
             .await
-            .map_err(|err| TopicLogSyncChannelError::MessageSink(format!("{err:?}")))?;
+            .map_err(|err| TopicLogSyncChannelError::MessageSink(format!("{err:?}")));
+        let result = match (result, close_result) {
+            (Ok(()), Err(err)) => Err(err.into()),
+            (result, _) => result,
+        };
 
         let final_event = match result.as_ref() {
             Ok(_) => {
